@@ -7,7 +7,8 @@
 //	B  every chain of up to 3 (thorough 4) nested length-prefix kinds around every
 //	   content size within 14 below .. 1 above each boundary 128 / 256 / 65536
 //	   (thorough: 2^24 for chains up to depth 2), x 3 ways of producing the content
-//	   x 4 sibling layouts,
+//	   (Bytes(k) | Bytes(k+1) Unwrite(1) | U8 Bytes(k-1); for the 64K sizes the last
+//	   two only on single-level chains) x 4 sibling layouts,
 //	C  AddASN1 with every identifier octet 0..255 x content sizes {0,127,128}.
 //
 // Every program runs on the real Builder (zero value; and, except for the largest
@@ -30,6 +31,7 @@ import (
 	"runtime/debug"
 	"runtime/pprof"
 	"sort"
+	"strconv"
 	"strings"
 	"sync"
 	"time"
@@ -696,8 +698,8 @@ func (k *checker) familyB(maxDepth int, bounds []int, tag string) {
 		st := newStats()
 		defer k.merge(st)
 		for variant := 0; variant < 3; variant++ {
-			if variant == 2 && j.size == 0 {
-				continue
+			if variant == 2 && j.size == 0 || variant > 0 && j.size > 4096 && j.size < 1<<20 && len(j.chain) > 1 {
+				continue // the alternative content layouts of 64K programs only for single-level chains
 			}
 			for sib := 0; sib < 4; sib++ {
 				var inner []*cbref.Op
@@ -770,7 +772,10 @@ func run(c *vf.Ctx) {
 	k := &checker{c: c, vals: &cbref.Values{Pool: pool}, seed: maphash.MakeSeed(), fixedMax: 4096,
 		outcomes: map[string]int64{}, counts: map[string]int64{}}
 	k.scratch.New = func() any { b := make([]byte, 1<<16+1024); return &b }
-	debug.SetGCPercent(400)
+	if g := os.Getenv("C22_GOGC"); g != "" {
+		n, _ := strconv.Atoi(g)
+		debug.SetGCPercent(n)
+	}
 	defer func() {
 		c.Set("outcome_counts", k.outcomes)
 		for a, n := range k.counts {
@@ -820,6 +825,9 @@ func run(c *vf.Ctx) {
 	} else {
 		k.familyB(3, []int{128, 256, 65536}, "B")
 		phase("B")
+		if os.Getenv("C22_ONLY") == "B" {
+			return
+		}
 		k.familyA("all_sizes", 0, 3, sizes)
 		phase("A_all_sizes")
 		k.familyA("sizes_upto_256", 4, 4, small)
